@@ -239,6 +239,7 @@ pub fn run(cfg: &Cfg, rep: &mut Report) {
         let mut expr = b"@".to_vec();
         let mut expect_entries = entries.clone();
         let mut expect_err = false;
+        let mut after_entry = false;
         let mut cname = "none";
         for (i, t) in texts.iter().enumerate() {
             if i > 0 {
@@ -303,6 +304,16 @@ pub fn run(cfg: &Cfg, rep: &mut Report) {
                 // nothing after the corruption matters; still append it to have realistic tails
             }
             expr.extend_from_slice(t);
+            if i == at && corruption == 5 && !expect_err {
+                // foreign character directly behind an entry (before the separator or the end of the list): the
+                // statement leaves open whether the entry it touches is still yielded, so both are accepted -
+                // but iteration must end in an error there and yield nothing that follows
+                expr.push(*rng.pick(b"xX@#$%&*()=?/\\<>~ \t"));
+                expect_entries.truncate(i + 1);
+                expect_err = true;
+                after_entry = true;
+                cname = "foreign-character-after-entry";
+            }
         }
         ctx.count(&format!("channel.corruption.{}", cname));
         ctx.add("channel.entries-generated", n as u64);
@@ -313,7 +324,7 @@ pub fn run(cfg: &Cfg, rep: &mut Report) {
             ctx.violation(&format!("C19:channel:{}", sig_issue(is)), detail(&got, &err));
         }
         if expect_err {
-            if got != expect_entries {
+            if got != expect_entries && !(after_entry && got[..] == expect_entries[..expect_entries.len() - 1]) {
                 ctx.violation(&format!("C19:channel:{}:entries-before-the-error-differ", cname), detail(&got, &err));
             } else if err.is_none() {
                 ctx.violation(&format!("C19:channel:{}:no-error", cname), detail(&got, &err));
@@ -380,6 +391,7 @@ pub fn run(cfg: &Cfg, rep: &mut Report) {
         let mut expr: Vec<u8> = vec![];
         let mut expect_entries = entries.clone();
         let mut expect_err = false;
+        let mut after_entry = false;
         let mut cname = "none";
         for (i, t) in texts.iter().enumerate() {
             let mut sep = i > 0;
@@ -432,6 +444,15 @@ pub fn run(cfg: &Cfg, rep: &mut Report) {
                 expr.push(b',');
             }
             expr.extend_from_slice(t);
+            if i == at && corruption == 5 && !expect_err {
+                // foreign character directly behind an entry: the entry it touches may or may not be yielded, the
+                // iteration must end in an error there
+                expr.push(*rng.pick(b"xX@#$%&*()=?/\\<>~ \t!"));
+                expect_entries.truncate(i + 1);
+                expect_err = true;
+                after_entry = true;
+                cname = "foreign-character-after-entry";
+            }
         }
         let first_kind = texts.first().map(|t| match t[0] { b'.' => "point", b'+' => "plus", b'-' => "minus", _ => "digit" }).unwrap_or("empty");
         ctx.count(&format!("numeric.corruption.{}", cname));
@@ -447,7 +468,7 @@ pub fn run(cfg: &Cfg, rep: &mut Report) {
             ctx.violation(&format!("C19:numeric:{}", sig_issue(is)), detail(&got, &err));
         }
         if expect_err {
-            if got != expect_entries {
+            if got != expect_entries && !(after_entry && got[..] == expect_entries[..expect_entries.len() - 1]) {
                 ctx.violation(&format!("C19:numeric:{}:entries-before-the-error-differ", cname), detail(&got, &err));
             } else if err.is_none() {
                 ctx.violation(&format!("C19:numeric:{}:no-error", cname), detail(&got, &err));
